@@ -252,6 +252,25 @@ type lkObs struct {
 	pubMoved                bool
 	pubMovedObservable      bool
 	hasPub                  bool
+	sends                   []lkSend
+	localFirst              bool
+	addrsNonEmpty           bool
+	answered                map[peer.ID]bool
+}
+
+type lkSend struct {
+	to peer.ID
+	ok bool
+}
+
+// lkHooks turns lkRun into the driver of a whole routing operation (C06).
+type lkHooks struct {
+	opts      []Option
+	world     *wWorld
+	op        func(ctx context.Context, d *IpfsDHT) error
+	isSend    func(req *pb.Message) bool
+	sendOK    func(d *IpfsDHT, call *simCall) bool
+	localHeld func(d *IpfsDHT) bool
 }
 
 func lkStateCoq(s qpeerset.PeerState) string {
@@ -259,8 +278,12 @@ func lkStateCoq(s qpeerset.PeerState) string {
 }
 
 // lkRun drives the real lookup.  Must run inside a synctest bubble.
-func lkRun(t *testing.T, r *vfRand, c *lkCase, public bool) *lkObs {
-	o := &lkObs{cancelFollowup: -1}
+func lkRun(t *testing.T, r *vfRand, c *lkCase, public bool, hooks ...*lkHooks) *lkObs {
+	o := &lkObs{cancelFollowup: -1, answered: map[peer.ID]bool{}}
+	var hk *lkHooks
+	if len(hooks) > 0 {
+		hk = hooks[0]
+	}
 	filter := func(_ interface{}, ai peer.AddrInfo) bool {
 		for _, a := range ai.Addrs {
 			if s, err := a.ValueForProtocol(ma.P_IP4); err == nil && !strings.HasPrefix(s, "10.") {
@@ -269,7 +292,11 @@ func lkRun(t *testing.T, r *vfRand, c *lkCase, public bool) *lkObs {
 		}
 		return false
 	}
-	node := simNewNode(t, r, c.k, c.alpha, c.beta, QueryFilter(filter))
+	nodeOpts := []Option{QueryFilter(filter)}
+	if hk != nil {
+		nodeOpts = append(nodeOpts, hk.opts...)
+	}
+	node := simNewNode(t, r, c.k, c.alpha, c.beta, nodeOpts...)
 	defer node.Close()
 	d := node.d
 	o.self = d.self
@@ -300,7 +327,18 @@ func lkRun(t *testing.T, r *vfRand, c *lkCase, public bool) *lkObs {
 		o.seeds = append(o.seeds, c.peers[j].id)
 	}
 
+	if hk != nil && hk.world != nil {
+		hk.world.self = d.self
+		hk.world.selfAddrInfo = peer.AddrInfo{ID: d.self, Addrs: node.h.addrs}
+	}
 	node.sender.reply = func(call *simCall) (*pb.Message, error) {
+		if hk != nil && hk.world != nil {
+			m, err := hk.world.reply(call)
+			if err == nil && call.req != nil && (call.req.GetType() == pb.Message_GET_VALUE || call.req.GetType() == pb.Message_FIND_NODE || call.req.GetType() == pb.Message_GET_PROVIDERS) {
+				o.answered[call.p] = true
+			}
+			return m, err
+		}
 		j, ok := byID[call.p]
 		if !ok || c.peers[j].outcome != lkAnswer {
 			return nil, fmt.Errorf("sim: request failed")
@@ -349,6 +387,11 @@ func lkRun(t *testing.T, r *vfRand, c *lkCase, public bool) *lkObs {
 				o.panicked = fmt.Sprint(e)
 			}
 		}()
+		if hk != nil && hk.op != nil {
+			err = hk.op(ctx, d)
+			res = &lookupWithFollowupResult{}
+			return
+		}
 		if public {
 			var ps []peer.ID
 			ps, err = d.GetClosestPeers(ctx, c.key)
@@ -382,6 +425,16 @@ func lkRun(t *testing.T, r *vfRand, c *lkCase, public bool) *lkObs {
 				return
 			}
 		}
+	}
+	recordSend := func(call *simCall) bool {
+		if hk != nil && hk.isSend != nil && call.req != nil && hk.isSend(call.req) {
+			if len(o.sends) == 0 {
+				o.localFirst = hk.localHeld(d)
+			}
+			o.sends = append(o.sends, lkSend{to: call.p, ok: hk.sendOK(d, call)})
+			return true
+		}
+		return false
 	}
 	pick := func(step int, pending []*simCall) int {
 		drainEvents()
@@ -425,6 +478,9 @@ func lkRun(t *testing.T, r *vfRand, c *lkCase, public bool) *lkObs {
 			}
 		}
 		call := pending[i]
+		if recordSend(call) {
+			return i
+		}
 		if termSeen && call.seq >= seqAtTerm {
 			followDone++
 		} else {
@@ -437,7 +493,20 @@ func lkRun(t *testing.T, r *vfRand, c *lkCase, public bool) *lkObs {
 	if !ok {
 		o.deadlock = true
 	}
-	simDrain(node.gate)
+	// messages sent in the background after the operation returned (corrective puts, late ADD_PROVIDERs)
+	for x := 0; x < 10000; x++ {
+		synctest.Wait()
+		pend := node.gate.Pending()
+		if len(pend) == 0 {
+			break
+		}
+		for _, call := range pend {
+			if !recordSend(call) {
+				call.err = fmt.Errorf("sim: drained")
+			}
+			node.gate.Release(call)
+		}
+	}
 	synctest.Wait()
 	drainEvents()
 	if err != nil {
@@ -463,6 +532,7 @@ func lkRun(t *testing.T, r *vfRand, c *lkCase, public bool) *lkObs {
 		}
 	}
 	o.pubErr = err != nil
+	o.addrsNonEmpty = len(d.FilteredAddrs()) > 0
 	o.pubMovedObservable = kb.CommonPrefixLen(kb.ConvertKey(c.key), d.selfKey) < len(stampsBefore)
 	return o
 }
